@@ -330,6 +330,9 @@ def run_impl(sc, spec, env=None, timeout=60, crash=None, yield_seed=None, binary
         e["SCIPIPE_VERIF_CRASH"] = crash
     if yield_seed is not None:
         e["SCIPIPE_VERIF_YIELD"] = "%d:%d" % yield_seed
+    if (strace_kill or strace_fault) and not gomaxprocs:
+        # strace counts `when=n` per traced thread: with one P the Go runtime issues the file writes from one thread (observed)
+        gomaxprocs = 1
     if gomaxprocs:
         e["GOMAXPROCS"] = str(gomaxprocs)
     if env:
